@@ -157,9 +157,21 @@ static char **ssh_argv_create (List arg_list, const char **remote_argv)
         argv[n++] = Strdup (arg);
     list_iterator_destroy (i);
 
-    /* Append remote_argv to standard list of args */
-    for (p = remote_argv; *p; p++)
-        argv[n++] = Strdup (*p);
+    /* Append remote_argv to standard list of args.  pipecmd() expands %h, %u,
+     *  %n and %% in EVERY argument: double each '%' of the command words so
+     *  that they reach ssh unchanged.
+     */
+    for (p = remote_argv; *p; p++) {
+        const char *q;
+        char *s = Strdup ("");
+
+        for (q = *p; *q; q++) {
+            if (*q == '%')
+                xstrcatchar (&s, '%');
+            xstrcatchar (&s, *q);
+        }
+        argv[n++] = s;
+    }
 
     return (argv);
 }
